@@ -7,7 +7,9 @@ MANIFEST = {
              "modelled separately): for EVERY version-valid frame (computable predicate frame_okb) of all 45 message kinds and 6 versions, "
              "EncodeFrame succeeds and DecodeFrame of the bytes followed by any further bytes returns the frame in normal form and exactly the "
              "rest - uncompressed, and compressed for any lossless compressor (C08's contract). Proved by one read/write lemma per notation, "
-             "induction on type trees and lists, one round-trip theorem per message kind, assembled through the codec dispatch. The model is "
+             "induction on type trees and lists, one round-trip theorem per message kind, assembled through the codec dispatch. The five Flags() "
+             "methods whose value drives writer and reader are regenerated from message/*.go on every run (go2coq unit flags) and proved equal "
+             "to the definitions the theorems use. The model is "
              "tied to the code on every run: thousands of generated valid frames (every optional-field subset, value classes, all versions, "
              "lz4/snappy) are encoded and decoded by the real codec and by the model (vm_compute) and compared (bytes, decoded structure, "
              "validity), and the round trip is evaluated directly on the implementation."),
@@ -58,7 +60,7 @@ def check(run):
     nv = fc.nonvalid_cases(recs)
     cases += nv
     mism = []
-    if cases and pr["ok"]:
+    if cases and fc.can_eval(pr):
         mism, cerr = fc.eval_cases("Cases_C01", fc.FRAME_PRELUDE, cases)
         if cerr:
             broken.append(cerr)
